@@ -24,7 +24,7 @@ macro_rules! gh {
 #[derive(Clone, Copy, PartialEq, Eq)]
 enum Ctx { Script, Call, PredVerify, PredEstimate }
 
-gh!(c05_gm, {
+fn gm_case(ctx: Ctx, has_frame: bool) {
     let mut regs = any_registers();
     assume_reg_inv(&regs);
     let gas = any_gas_costs();
@@ -45,9 +45,6 @@ gh!(c05_gm, {
     vm.interpreter_params.tx_offset = tx_offset;
     let owner: Option<Word> = if kani::any() { Some(kani::any()) } else { None };
     vm.owner_ptr = owner;
-    let which: u8 = kani::any();
-    kani::assume(which < 4);
-    let ctx = match which { 0 => Ctx::Script, 1 => Ctx::Call, 2 => Ctx::PredVerify, _ => Ctx::PredEstimate };
     // a runtime predicate for input 0 or 1 of a two-predicate transaction (RuntimePredicate has no raw constructor)
     let pred_idx: usize = if kani::any() { 0 } else { 1 };
     let ptx = {
@@ -56,7 +53,6 @@ gh!(c05_gm, {
     };
     let rp = RuntimePredicate::from_tx(&ptx, 1000, pred_idx).unwrap();
     let saved_fp: Word = kani::any();
-    let has_frame: bool = kani::any();
     match ctx {
         Ctx::Script => vm.context = Context::Script { block_height: Default::default() },
         Ctx::Call => vm.context = Context::Call { block_height: Default::default() },
@@ -106,7 +102,13 @@ gh!(c05_gm, {
         }
     }
     core::mem::forget(vm);
-});
+}
+// context and presence of a call frame are harness constants (a symbolic frame vector runs out of memory)
+gh!(c05_gm_script, { gm_case(Ctx::Script, false) });
+gh!(c05_gm_call, { gm_case(Ctx::Call, true) });
+gh!(c05_gm_call_no_frame, { gm_case(Ctx::Call, false) });
+gh!(c05_gm_predicate_verify, { gm_case(Ctx::PredVerify, false) });
+gh!(c05_gm_predicate_estimate, { gm_case(Ctx::PredEstimate, false) });
 
 // ---------------------------------------------------------------------------------------------
 // GTF on a Script with one input of each family (coin predicate, contract, message-data
@@ -308,5 +310,71 @@ gtfh!(c05_gtf_general, {
                  || (undef > 0x800 && undef < 0x900) || undef > 0x905));
     err(gtf(&mut vm, b, undef), PanicReason::InvalidMetadataIdentifier);
     kani::cover!(true, "general selectors checked");
+    core::mem::forget(vm); core::mem::forget(tb);
+});
+
+// GTF on a Create transaction: script selectors belong to another kind, create selectors are served.
+gtfh!(c05_gtf_create, {
+    use fuel_tx::{Create, StorageSlot};
+    use fuel_types::Salt;
+    let salt: [u8; 32] = kani::any();
+    let (sk, sv): ([u8; 32], [u8; 32]) = (kani::any(), kani::any());
+    let bwi: u16 = kani::any();
+    let (o0, p0): ([u8; 32], [u8; 3]) = (kani::any(), kani::any());
+    let (cid, sr): ([u8; 32], [u8; 32]) = (kani::any(), kani::any());
+    let code: [u8; 4] = kani::any();
+    let mut pol = Policies::new();
+    pol.set(PolicyType::MaxFee, Some(kani::any()));
+    let tx: Create = Transaction::create(bwi, pol, Salt::new(salt), alloc::vec![StorageSlot::new(Bytes32::new(sk), Bytes32::new(sv))],
+        alloc::vec![Input::coin_predicate(UtxoId::default(), Address::new(o0), kani::any(), AssetId::zeroed(), TxPointer::default(), kani::any(), p0.to_vec(), Vec::new())],
+        alloc::vec![Output::contract_created(ContractId::new(cid), Bytes32::new(sr))],
+        alloc::vec![Witness::from(code.to_vec())]);
+    let tb = tx.to_bytes();
+    let size = tb.len() as Word;
+    let mut stack: Vec<u8> = alloc::vec![0u8; TXO];
+    let sb = size.to_be_bytes();
+    let mut i = 0;
+    while i < 8 { stack[TXO - 8 + i] = sb[i]; i += 1; }
+    let mut regs = [0u64; VM_REGISTER_COUNT];
+    regs[1] = 1; regs[R_HP] = VM_MAX_RAM; regs[R_SSP] = TXO as Word; regs[R_SP] = TXO as Word;
+    let mut vm = mk_vm_tx(regs, MemoryInstance::verif_from_parts(stack, Vec::new(), MEM_SIZE), GasCostsValuesV7::free(),
+                          MemoryStorage::new(Default::default(), ContractId::zeroed()), tx);
+    vm.interpreter_params.tx_offset = TXO;
+    let mut g = |b: Word, imm: u16| -> Result<Word, PanicReason> {
+        vm.registers[0x10] = 0xDEAD_BEEF;
+        match vm.get_transaction_field(rid(0x10), b, imm) {
+            Ok(()) => Ok(vm.registers[0x10]),
+            Err(PanicOrBug::Panic(r)) => { assert!(vm.registers[0x10] == 0xDEAD_BEEF); Err(r) }
+            Err(PanicOrBug::Bug(_)) => { assert!(false, "GTF never reports an internal bug"); Err(PanicReason::UnknownPanicReason) }
+        }
+    };
+    let b: Word = kani::any();
+    val(g(b, 0x001), 1); // Type: create
+    // script selectors are selectors of another transaction kind
+    let script_sel: [u16; 4] = [0x003, 0x004, 0x009, 0x00A];
+    let k: usize = kani::any();
+    kani::assume(k < 4);
+    err(g(b, script_sel[k]), PanicReason::InvalidMetadataIdentifier);
+    let foreign: [u16; 9] = [0x600, 0x601, 0x602, 0x603, 0x604, 0x605, 0x700, 0x701, 0x800];
+    let j: usize = kani::any();
+    kani::assume(j < 9);
+    err(g(b, foreign[j]), PanicReason::InvalidMetadataIdentifier);
+    // create selectors
+    val(g(b, 0x101), bwi as Word);
+    val(g(b, 0x102), 1);
+    val(g(b, 0x103), 1); val(g(b, 0x104), 1); val(g(b, 0x105), 1);
+    ptr(g(b, 0x106), &tb, &salt);
+    let mut slot = [0u8; 64];
+    let mut i = 0;
+    while i < 32 { slot[i] = sk[i]; slot[32 + i] = sv[i]; i += 1; }
+    ptr(g(0, 0x107), &tb, &slot);
+    err(g(1, 0x107), PanicReason::StorageSlotsNotFound);
+    ptr(g(0, 0x203), &tb, &o0);
+    ptr(g(0, 0x20B), &tb, &p0);
+    ptr(g(0, 0x307), &tb, &cid);
+    ptr(g(0, 0x308), &tb, &sr);
+    ptr(g(0, 0x401), &tb, &code);
+    val(g(0, 0x400), 4);
+    kani::cover!(true, "create selectors checked");
     core::mem::forget(vm); core::mem::forget(tb);
 });
